@@ -1,6 +1,7 @@
 package props
 
 import (
+	"sort"
 	"os"
 	"encoding/json"
 	"fmt"
@@ -642,8 +643,50 @@ func (st *c11State) checkLive() {
 	}
 }
 
+// checkComplete: at a quiescent point every retained event has reached every healthy operator that
+// finished logging in - in its replay if it was recorded before the operator's snapshot was taken,
+// live otherwise. (Listener events are amended and pruned later by design and are left out.)
+func (st *c11State) checkComplete() {
+	w, res := st.w, st.res
+	var idxs []int
+	for i := range st.ops {
+		idxs = append(idxs, i)
+	}
+	sort.Ints(idxs)
+	for _, i := range idxs {
+		c := st.ops[i]
+		if c == nil || !c.authed || !c.healthy || !c.replayChecked {
+			continue
+		}
+		c.o.Pump()
+		got := map[string]bool{}
+		for _, e := range c.o.Events {
+			got[canon(e.Raw)] = true
+		}
+		for _, pk := range w.TS.EventsList {
+			if pk.Head.Event == world.EvListener {
+				continue
+			}
+			if pk.Head.Event == world.EvSession && pk.Body.SubEvent == world.SessInput {
+				continue // the record of an operator's command is emptied after it has been relayed
+			}
+			b, _ := json.Marshal(pk)
+			if k := canon(b); !got[k] {
+				res.Violate("C11", "retained-event-never-delivered", fmt.Sprintf("event-%d-%d", pk.Head.Event, pk.Body.SubEvent),
+					fmt.Sprintf("operator %s is logged in and healthy, yet never received retained event %s (neither in its replay nor live)", c.o.Name, short(k, 140)), w.Sim)
+				return
+			}
+		}
+		res.Probe("completeness-checked")
+	}
+}
+
 func (st *c11State) finalChecks() {
 	w, res := st.w, st.res
+	st.checkComplete()
+	if len(res.Violations) > 0 {
+		return
+	}
 	// every retained-class event the witness saw live must still be in the retained list (unless pruned)
 	wit := st.ops[0]
 	if wit == nil {
@@ -722,6 +765,10 @@ func (st *c11State) probe(n int) {
 		return
 	}
 	res.Probe("liveness-probes")
+	st.checkComplete()
+	if len(res.Violations) > 0 {
+		return
+	}
 	if !call.Done {
 		res.Violate("C11", "request-stuck", "after-fault", "an agent check-in issued after the faults stopped never completed", w.Sim)
 		return
